@@ -187,7 +187,7 @@ pub fn main(a: &Args) {
             };
             let legacy_wire_ty = m.legacy_ty;
             for (vi, lv) in values.iter().enumerate() {
-                if (vi as u64) % stride != (seed % stride) && values.len() > 2 {
+                if (vi as u64) % stride != (seed % stride) && values.len() > 2 && vi != 0 {
                     continue;
                 }
                 for presence in 0..2 {
